@@ -404,7 +404,64 @@ def run_one(files, model: refsem.Model, names: List[str], assign: Tuple[Optional
     cfg = inst.config_text()
     hdr = inst.header_text()
     js = json.dumps(inst.json_values(), sort_keys=True)
+    _USER_STATE[(id(files), assign)] = inst.user_state()
     return obs, cfg, hdr, js, user, picks
+
+
+_USER_STATE: Dict[tuple, Any] = {}
+
+
+def gray(doms: List[list]) -> List[tuple]:
+    if not doms:
+        return [()]
+    sub = gray(doms[1:])
+    out: List[tuple] = []
+    for i, v in enumerate(doms[0]):
+        out.extend((v,) + t for t in (sub if i % 2 == 0 else reversed(sub)))
+    return out
+
+
+def live_walk(fam: str, files, model: refsem.Model, names: List[str], assigns, results, r: common.Result) -> None:
+    """oracle 3: the same configurations reached one after the other on ONE instance, everything read after every step
+    (set / unset of exactly the options that differ from the previous configuration).  Wherever the instance holds the
+    same user values and selections as the fresh instance of that configuration, it has to show the same values."""
+    ptext = files["Kconfig"]
+    live = impl.Inst(files)
+    live.obs()
+    prev: Tuple[Optional[str], ...] = (None,) * len(names)
+    for assign in assigns:
+        assign = tuple(assign)
+        try:
+            for n, old, new in zip(names, prev, assign):
+                if old == new:
+                    continue
+                if new is None:
+                    live.k.syms[n].unset_value()
+                else:
+                    live.k.syms[n].set_value(new)
+            prev = assign
+            if assign not in results:
+                continue
+            if live.user_state() != _USER_STATE.get((id(files), assign)):
+                r.count("live_walk_other_user_state(skipped)")
+                live.obs()
+                continue
+            lobs = live.obs()
+        except Exception as e:  # noqa: BLE001
+            r.violation({"kind": "exception", "exc": type(e).__name__, "site": "live_walk", "family": fam}, f"live walk to {dict(zip(names, assign))} raised {type(e).__name__}: {e}",
+                        {"family": fam, "program": ptext, "files": files, "names": names, "assign": list(assign), "live_walk": True})
+            return
+        r.evals += 1
+        r.count("live_walk_steps")
+        fobs = results[assign][0]
+        if lobs != fobs:
+            diff = [n for n in fobs if fobs[n] != lobs[n]]
+            r.violation(
+                {"kind": "incremental_differs_from_fresh", "family": fam, "types": sorted({model.syms[n].type for n in diff})},
+                f"configuration {dict(zip(names, assign))} reached step by step on one instance shows {dict((n, lobs[n][:3]) for n in diff)}, a fresh instance {dict((n, fobs[n][:3]) for n in diff)}",
+                {"family": fam, "program": ptext, "files": files, "names": names, "assign": list(assign), "live_walk": True},
+            )
+            return
 
 
 def check_program(fam: str, files, prog: Program, r: common.Result, only_assign=None):
@@ -461,6 +518,14 @@ def check_program(fam: str, files, prog: Program, r: common.Result, only_assign=
                 )
         if hidden_or_user:
             r.outcome((ptext, tuple((n, obs[n][0], obs[n][1]) for n in model.order)))
+    if only_assign is None:
+        # reflected (Gray) order: consecutive configurations differ in exactly ONE option, every other option keeps its
+        # cached value across the step; walked forwards and backwards (each single change is taken in both directions)
+        order = gray([d for _, d in doms])
+        live_walk(fam, files, model, names, order, results, r)
+        live_walk(fam, files, model, names, list(reversed(order)), results, r)
+        for a_ in assigns:
+            _USER_STATE.pop((id(files), tuple(a_)), None)
     # oracle 2: hidden user values have no effect on any output
     for assign, (obs, cfg, hdr, js) in results.items():
         reduced = tuple(None if (v is not None and obs[n][1] == 0) else v for n, v in zip(names, assign))
@@ -553,6 +618,9 @@ def replay(case) -> List[dict]:
         for name, prog in f("thorough"):
             if name == fam and kgen.render(prog)["Kconfig"] == text:
                 r = common.Result()
+                if case.get("live_walk"):
+                    check_program(fam, case["files"], prog, r)
+                    return [v for v in r.viols if v["case"].get("live_walk")]
                 check_program(fam, case["files"], prog, r, only_assign=tuple(case["assign"]))
                 return r.viols
     for f in FAMILIES:
